@@ -46,10 +46,14 @@ func replayLib(args []string) error {
 	seed := fs.Int64("seed", 1, "seed for the rank dictionary")
 	cfgs := fs.String("configs", "mem:ondemand:none,mem:preload:none,memdb:ondemand:none,memdb:preload:none,big:ondemand:none,big:preload:none", "kind:mode:cache[:cap] list")
 	reopen := fs.Bool("reopen", false, "close and reopen the index once and ask again (C05)")
+	dictKind := fs.String("dict", "nasty", "nasty | ambiguous")
 	fs.Parse(args)
 
 	rng := rand.New(rand.NewSource(*seed))
 	dict := vx.SmallDict(rng, 4, 4)
+	if *dictKind == "ambiguous" {
+		dict = vx.AmbiguousDict(4, 4)
+	}
 	dir := vx.Scratch("replaylib")
 	defer os.RemoveAll(dir)
 
